@@ -7,6 +7,8 @@ Three groups:
                  per class, and the statement text of the buffering / closing / multiplexing methods.
   OutputApi      how `configure_output_stream` treats an exception of `close()`; OUTPUT_FORMATS.
   OutputSchema   TableInfo.register, the keys `_generate_row` puts into a row, the hidden-name filter.
+  OutputGenerate whether `generate` commits the stream after `interpreter.execute()` while an error can
+                 still fail the run (fix 043066e).
 """
 import ast
 
@@ -234,11 +236,32 @@ def _output_streams(tree):
     out += str_list_def("json_close", body_text(own_method(js, "close") or _missing("JSONOutputStream.close")))
     # multiplexing
     mx = h.classes["MultiplexOutputStream"]
-    for meth in ("create_or_validate_tables", "write_row", "close"):
+    for meth in ("create_or_validate_tables", "write_row", "commit", "close"):
         m = own_method(mx, meth)
         if m is None:
             raise PinError(f"MultiplexOutputStream.{meth} not found")
         out += str_list_def("mux_" + meth, body_text(m))
+    # does close() go on after a stream's close raised?  (for-loop body = try/except without raise)
+    mc = own_method(mx, "close")
+    loops = [n for n in mc.body if isinstance(n, ast.For)]
+    if len(loops) != 1:
+        raise PinError("MultiplexOutputStream.close: expected exactly one for-loop")
+    body = loops[0].body
+    goes_on = (
+        len(body) == 1 and isinstance(body[0], ast.Try)
+        and [ast.unparse(x) for x in body[0].body] == ["stream.close()"]
+        and bool(body[0].handlers)
+        and not any(isinstance(n, (ast.Raise, ast.Break, ast.Return)) for h_ in body[0].handlers for n in ast.walk(h_))
+        and not body[0].finalbody
+    )
+    if not goes_on and [ast.unparse(x) for x in body] != ["stream.close()"]:
+        raise PinError("MultiplexOutputStream.close: loop body is neither `stream.close()` nor try/except around it")
+    after = [n for n in mc.body[mc.body.index(loops[0]) + 1:]]
+    reraises = any(isinstance(n, ast.Raise) for st_ in after for n in ast.walk(st_))
+    out += "/-- `MultiplexOutputStream.close` closes the remaining streams after one close raised -/\n"
+    out += f"def muxCloseGoesOn : Bool :=\n  {'true' if goes_on else 'false'}\n"
+    out += "/-- …and re-raises afterwards -/\n"
+    out += f"def muxCloseReraises : Bool :=\n  {'true' if reraises else 'false'}\n"
     return out
 
 
@@ -315,4 +338,40 @@ def _output_schema(tree):
     if fr is None:
         raise PinError("Interpreter.filter_row_values_normal not found")
     out += str_list_def("filterRowValues", body_text(fr))
+    return out
+
+
+@group("OutputGenerate", "snowfakery/data_generator.py", ["C08"])
+def _output_generate(tree):
+    out = ""
+    f = find_func(tree, "generate")
+    withs = [n for n in ast.walk(f) if isinstance(n, ast.With)
+             and any(ast.unparse(i.context_expr).startswith("Interpreter(") for i in n.items)]
+    if len(withs) != 1:
+        raise PinError("generate: expected exactly one `with Interpreter(...)` block")
+    body = withs[0].body
+    texts = [ast.unparse(x) for x in body]
+    out += str_list_def("interpreterBlock", texts, doc="body of `with Interpreter(...) as interpreter:` in generate()")
+    if not texts or texts[0] != "runtime_context = interpreter.execute()":
+        raise PinError("generate: the Interpreter block no longer starts with `runtime_context = interpreter.execute()`")
+    commits = False
+    for st_ in body[1:]:
+        if isinstance(st_, ast.Try) and [ast.unparse(x) for x in st_.body] == ["output_stream.commit()"]:
+            # every handler must raise (the failure has to fail the run)
+            commits = bool(st_.handlers) and all(
+                any(isinstance(n, ast.Raise) for n in ast.walk(h_)) for h_ in st_.handlers
+            ) and not st_.finalbody
+        elif isinstance(st_, ast.Expr) and ast.unparse(st_) == "output_stream.commit()":
+            commits = True
+    out += "/-- generate() commits the output stream after the interpreter is done; a failure fails the run -/\n"
+    out += f"def commitsBeforeSuccess : Bool :=\n  {'true' if commits else 'false'}\n"
+    # the block sits inside the try whose DataGenError handler re-raises
+    tries = [n for n in ast.walk(f) if isinstance(n, ast.Try) and withs[0] in n.body]
+    if len(tries) != 1:
+        raise PinError("generate: the Interpreter block is no longer directly inside a try")
+    hs = [(ast.unparse(h_.type) if h_.type else "BaseException") for h_ in tries[0].handlers]
+    swallowing = [t for t, h_ in zip(hs, tries[0].handlers)
+                  if not any(isinstance(n, ast.Raise) for n in ast.walk(h_))]
+    out += str_list_def("generateHandlers", hs, doc="handlers of the try around the Interpreter block")
+    out += str_list_def("generateSwallowingHandlers", swallowing, doc="those that do not re-raise")
     return out
